@@ -25,7 +25,7 @@ use super::{
 use crate::{
     actor::MAX_COMMIT_DELAY,
     keys::Author,
-    ranger::{Fingerprint, Range, RangeEntry},
+    ranger::{Fingerprint, InsertOutcome, Range, RangeEntry},
     sync::{Entry, EntrySignature, Record, RecordIdentifier, Replica, SignedEntry},
     AuthorHeads, AuthorId, Capability, CapabilityKind, NamespaceId, NamespaceSecret, PeerIdBytes,
     ReplicaInfo,
@@ -786,46 +786,32 @@ impl<'a> crate::ranger::Store<SignedEntry> for StoreInstance<'a> {
     }
 
     fn entry_put(&mut self, e: SignedEntry) -> Result<()> {
-        let id = e.id();
-        self.store.as_mut().modify(|tables| {
-            // insert into record table
-            let key = (
-                &id.namespace().to_bytes(),
-                &id.author().to_bytes(),
-                id.key(),
-            );
-            let hash = e.content_hash(); // let binding is needed
-            let value = (
-                e.timestamp(),
-                &e.signature().namespace().to_bytes(),
-                &e.signature().author().to_bytes(),
-                e.content_len(),
-                hash.as_bytes(),
-            );
-            tables.records.insert(key, value)?;
+        self.store.as_mut().modify(|tables| entry_put_in(tables, &e))
+    }
 
-            // insert into by key index table
-            let key = (
-                &id.namespace().to_bytes(),
-                id.key(),
-                &id.author().to_bytes(),
-            );
-            tables.records_by_key.insert(key, ())?;
-
-            // insert into latest table
-            let key = (&e.id().namespace().to_bytes(), &e.id().author().to_bytes());
-            let value = (e.timestamp(), e.id().key());
-            // The head is the author's greatest timestamp: an entry that arrives late (older
-            // timestamp at another key) must not move it backwards.
-            let is_head = match tables.latest_per_author.get(key)? {
-                Some(current) => e.timestamp() >= current.value().0,
-                None => true,
-            };
-            if is_head {
-                tables.latest_per_author.insert(key, value)?;
+    /// Insert a key value pair, see [`crate::ranger::Store::put`].
+    ///
+    /// Unlike the provided implementation, pruning the superseded entries and writing the new
+    /// entry happen inside a single [`Store::modify`] call. The age-based automatic commit runs
+    /// on entry to `modify`, so it can never fall between the two steps and persist a state in
+    /// which the old entries are gone but the new one is not yet there.
+    fn put(&mut self, entry: SignedEntry) -> Result<InsertOutcome> {
+        for prefix_entry in self.prefixes_of(entry.id())? {
+            let prefix_entry = prefix_entry?;
+            if entry.entry().record() <= prefix_entry.entry().record() {
+                return Ok(InsertOutcome::NotInserted);
             }
-            Ok(())
-        })
+        }
+        let id = entry.id();
+        let bounds = RecordsBounds::author_prefix(id.namespace(), id.author(), id.key_bytes());
+        let removed = self.store.as_mut().modify(|tables| {
+            let removed = remove_prefix_filtered_in(tables, &bounds, |value| {
+                entry.entry().record() >= value
+            })?;
+            entry_put_in(tables, &entry)?;
+            Ok(removed)
+        })?;
+        Ok(InsertOutcome::Inserted { removed })
     }
 
     fn get_range(&mut self, range: Range<RecordIdentifier>) -> Result<Self::RangeIterator<'_>> {
@@ -910,18 +896,69 @@ impl<'a> crate::ranger::Store<SignedEntry> for StoreInstance<'a> {
         predicate: impl Fn(&Record) -> bool,
     ) -> Result<usize> {
         let bounds = RecordsBounds::author_prefix(id.namespace(), id.author(), id.key_bytes());
-        self.store.as_mut().modify(|tables| {
-            let cb = |_k: RecordsId, v: RecordsValue| {
-                let (timestamp, _namespace_sig, _author_sig, len, hash) = v;
-                let record = Record::new(hash.into(), len, timestamp);
-
-                predicate(&record)
-            };
-            let iter = tables.records.extract_from_if(bounds.as_ref(), cb)?;
-            let count = iter.count();
-            Ok(count)
-        })
+        self.store
+            .as_mut()
+            .modify(|tables| remove_prefix_filtered_in(tables, &bounds, predicate))
     }
+}
+
+/// Write an entry into the records table, the by-key index and the per-author heads.
+fn entry_put_in(tables: &mut Tables, e: &SignedEntry) -> Result<()> {
+    let id = e.id();
+    // insert into record table
+    let key = (
+        &id.namespace().to_bytes(),
+        &id.author().to_bytes(),
+        id.key(),
+    );
+    let hash = e.content_hash(); // let binding is needed
+    let value = (
+        e.timestamp(),
+        &e.signature().namespace().to_bytes(),
+        &e.signature().author().to_bytes(),
+        e.content_len(),
+        hash.as_bytes(),
+    );
+    tables.records.insert(key, value)?;
+
+    // insert into by key index table
+    let key = (
+        &id.namespace().to_bytes(),
+        id.key(),
+        &id.author().to_bytes(),
+    );
+    tables.records_by_key.insert(key, ())?;
+
+    // insert into latest table
+    let key = (&e.id().namespace().to_bytes(), &e.id().author().to_bytes());
+    let value = (e.timestamp(), e.id().key());
+    // The head is the author's greatest timestamp: an entry that arrives late (older
+    // timestamp at another key) must not move it backwards.
+    let is_head = match tables.latest_per_author.get(key)? {
+        Some(current) => e.timestamp() >= current.value().0,
+        None => true,
+    };
+    if is_head {
+        tables.latest_per_author.insert(key, value)?;
+    }
+    Ok(())
+}
+
+/// Remove all records within `bounds` for which `predicate` returns true; returns the count.
+fn remove_prefix_filtered_in(
+    tables: &mut Tables,
+    bounds: &RecordsBounds,
+    predicate: impl Fn(&Record) -> bool,
+) -> Result<usize> {
+    let cb = |_k: RecordsId, v: RecordsValue| {
+        let (timestamp, _namespace_sig, _author_sig, len, hash) = v;
+        let record = Record::new(hash.into(), len, timestamp);
+
+        predicate(&record)
+    };
+    let iter = tables.records.extract_from_if(bounds.as_ref(), cb)?;
+    let count = iter.count();
+    Ok(count)
 }
 
 fn chain_none<'a, I: Iterator<Item = T> + 'a, T>(
